@@ -18,10 +18,12 @@ import (
 	"fmt"
 	"math"
 	"math/rand"
+	"os"
 	"path/filepath"
 	"sort"
 	"strconv"
 	"strings"
+	"time"
 
 	"github.com/tidwall/tile38/verifapi"
 	"verifharness/internal/hx"
@@ -951,9 +953,33 @@ func runC13(r *hx.Result, cfg hx.Config) {
 	if cfg.Search {
 		hlb, ip, bb = 2000000, 400, 30
 	}
-	sampleHlb(r, rng, hlb)
-	sampleHeap(r, drv, rng, 3000)
-	inProcess(r, drv, rng, ip)
-	blackBox(r, cfg, drv, rng, bb)
-	r.TracesImpl = r.Distribution["blackbox-query"] + r.Distribution["in-process-query"]
+	// E: NEARBY while the collection is written (concurrent.go): objects, writer and reader
+	// connections, seconds with both running
+	cobj, cwr, crd, csec := 20000, 4, 3, 9
+	if cfg.Tier == "thorough" {
+		cobj, csec = 40000, 60
+	}
+	if cfg.Search {
+		cobj, csec = 40000, 45
+	}
+	parts := os.Getenv("VERIF_C13_PARTS") // debugging aid: e.g. "E" runs the concurrent oracle only
+	on := func(p string) bool { return parts == "" || strings.Contains(parts, p) }
+	if on("E") && cfg.Search {
+		// after a broken obligation of Props/C13iso.v this is where a failing input is to be found
+		concurrent(r, cfg, rng, cobj, cwr, crd, time.Duration(csec)*time.Second)
+	}
+	if on("B") {
+		sampleHlb(r, rng, hlb)
+		sampleHeap(r, drv, rng, 3000)
+	}
+	if on("C") {
+		inProcess(r, drv, rng, ip)
+	}
+	if on("D") {
+		blackBox(r, cfg, drv, rng, bb)
+	}
+	if on("E") && !cfg.Search {
+		concurrent(r, cfg, rng, cobj, cwr, crd, time.Duration(csec)*time.Second)
+	}
+	r.TracesImpl = r.Distribution["blackbox-query"] + r.Distribution["in-process-query"] + r.Distribution["concurrent-query"]
 }
